@@ -69,6 +69,9 @@ def plan(tier):
                         "innate_check_calls": 3000, "innate_allowed": 300, "innate_blocked_by_pattern": 500,
                         "innate_blocked_by_validator": 200, "innate_case_perturbations_checked": 200, "innate_embeddings_checked": 200,
                         "innate_json_validator_calls": 500, "hostile_sweep_calls": 400, "histories": 300,
+                        "membrane_rule_change_rounds": 800, "membrane_reseen_input_must_block_checked": 600,
+                        "membrane_reseen_input_same_rule_counts": 300, "innate_rule_change_rounds": 150,
+                        "innate_reseen_input_must_block_checked": 120, "innate_reseen_input_same_rule_counts": 60,
                         "thread_schedules": 1000, "thread_schedules_with_switch_inside": 300, "thread_rate_lock_acquisitions": 3000, "thread_schedules_limit_reached": 500,
                         "cases_that_printed": 20}}
 
@@ -154,7 +157,21 @@ def apply_rule_op(env, kind, spec, rng=None):
     elif kind == "threshold":
         m.set_threshold(ThreatLevel(spec))
         mm.threshold = spec
+    elif kind == "replace-signature":      # spec = (old key, new spec): in-place edit of the public `signatures` list, rule count unchanged
+        old, new = spec
+        m.signatures[last_index(m.signatures, old, sig_key)] = ThreatSignature(new[0], ThreatLevel(new[2]), "replaced", new[1])
+        mm.replace(old, new)
+    elif kind == "remove-signature":
+        del m.signatures[last_index(m.signatures, spec, sig_key)]
+        mm.remove(spec)
     env.ops.append([kind, spec])
+
+
+def last_index(objs, key, keyfn):
+    for i in range(len(objs) - 1, -1, -1):
+        if keyfn(objs[i]) == key:
+            return i
+    raise KeyError(key)
 
 
 def make_input(rng, active, others, inst_fn=M.sig_instance):
@@ -362,8 +379,15 @@ def case_mhist(ctx, n, rng):
                 apply_rule_op(env, "import", rng.choice(future))
             elif r < 0.77:
                 apply_rule_op(env, "add", rng.choice(future) if rng.random() < 0.5 else gen_sigspec(rng, 3))
-            elif r < 0.86:
+            elif r < 0.85:
                 apply_rule_op(env, "threshold", rng.choice([0, 1, 2, 3, 3, 3]))
+            elif r < 0.88 and mm.learned:            # rotate: one learned pattern out, another in, nothing filtered in between
+                apply_rule_op(env, "forget", rng.choice(sorted(mm.learned.values())))
+                apply_rule_op(env, learn_route(rng, mm), rng.choice(future))
+            elif r < 0.91 and mm.learned:            # overwrite a learned pattern under its own name (other level and / or matcher)
+                k = rng.choice(sorted(mm.learned.values()))
+                flip = rng.random() < 0.3 and (k[1] or regex_ok(k[0]))
+                apply_rule_op(env, learn_route(rng, mm), (k[0], (not k[1]) if flip else k[1], rng.randint(0, 3)))
             else:
                 t = advance(clock, mm, rng)
                 env.ops.append(["advance-to", round(t - clock.base, 2)])
@@ -405,6 +429,142 @@ def case_mrelax(ctx, n, rng):
     if xc:
         step_filter(ctx, env, xc, tag="filter-variant-after-relax")
     step_filter(ctx, env, x, tag="filter-after-relax")
+
+
+# ------------------------------------------------------------------ the same input seen again after the rule set changed
+def regex_ok(pattern):
+    import re
+    try:
+        re.compile(pattern, re.IGNORECASE)
+        return True
+    except re.error:
+        return False
+
+
+def learn_route(rng, mm):
+    return "learn" if (mm.adaptive and rng.random() < 0.6) else "import"
+
+
+def passing_input_for(rng, active, threshold, spec, refused=(), accept=None):
+    """an input holding an instance of `spec` that the current rule set still lets through (workload selection only; the
+    verdicts are judged by step_filter / step_check)"""
+    for _ in range(6):
+        inst = M.sig_instance(spec, rng)
+        if inst is None:
+            return None
+        if rng.random() < 0.4:
+            inst = M.case_perturb(inst, rng) or inst
+        x = inst if rng.random() < 0.2 else M.compose(rng, [inst], hostile_p=0.04 if rng.random() < 0.5 else 0.0)
+        if rng.random() < 0.25:
+            x += " #%d" % rng.randrange(10 ** 6)
+        if accept is not None:
+            x = accept(x)
+            if x is None:
+                continue
+        C = M.Content(x)
+        must, amb = M.scan(active, C)
+        if amb or x in refused or max((k[2] for k in must), default=0) >= threshold:
+            continue
+        if not M.scan([spec], C)[0]:
+            continue
+        return x
+    return None
+
+
+MSWAPS = ["rotate-learned", "rotate-learned", "overwrite-level", "overwrite-level", "overwrite-matcher", "replace-signature",
+          "replace-signature", "remove-add-signature", "lower-threshold", "add-only"]
+
+
+def decoy_spec(rng, maxlevel, avoid):
+    for _ in range(8):
+        d = gen_sigspec(rng, maxlevel)
+        if d[0] != avoid:
+            return d
+    return ("zq decoy unit", False, 1)
+
+
+def mswap_round(ctx, env, rng):
+    """x passes; the rule set changes (mostly WITHOUT changing the number of signatures / learned patterns or the threshold)
+    so that an active signature at/above the threshold now matches x; the byte-identical x is filtered again."""
+    mm = env.mm
+    if mm.threshold == 0:
+        apply_rule_op(env, "threshold", rng.randint(1, 3))
+    kind = rng.choice(MSWAPS)
+    base = gen_sigspec(rng, 3)
+    S = (base[0], base[1], rng.randint(mm.threshold, 3))
+    pre, change = [], []
+    if kind == "rotate-learned":
+        if mm.learned and rng.random() < 0.4:
+            D = rng.choice(sorted(mm.learned.values()))
+        else:
+            D = decoy_spec(rng, 3, S[0])
+            pre.append((learn_route(rng, mm), D))
+        change = [("forget", D), (learn_route(rng, mm), S)]
+        if rng.random() < 0.3:
+            change.reverse()
+    elif kind == "overwrite-level":
+        pre.append((learn_route(rng, mm), (S[0], S[1], rng.randint(0, mm.threshold - 1))))
+        change = [(learn_route(rng, mm), S)]
+    elif kind == "overwrite-matcher":
+        pat = rng.choice(M.CUSTOM_RX + [p for p in M.CUSTOM_SUB if regex_ok(p)])
+        S = (pat, rng.random() < 0.7, S[2])
+        pre.append((learn_route(rng, mm), (pat, not S[1], rng.randint(1, 3))))
+        change = [(learn_route(rng, mm), S)]
+    elif kind in ("replace-signature", "remove-add-signature"):
+        if mm.static and rng.random() < 0.3:
+            D = rng.choice(mm.static)
+        else:
+            D = decoy_spec(rng, 3, S[0])
+            pre.append(("add", D))
+        if kind == "replace-signature":
+            change = [("replace-signature", (D, S))]
+        else:
+            change = [("remove-signature", D), ("add", S)]
+            if rng.random() < 0.3 and D != S:
+                change.reverse()
+    elif kind == "lower-threshold":
+        lvl = rng.randint(1, 2)
+        S = (S[0], S[1], lvl)
+        pre = [("threshold", rng.randint(lvl + 1, 3)), (rng.choice(["add", learn_route(rng, mm)]), S)]
+        change = [("threshold", rng.randint(0, lvl))]
+    else:
+        change = [(rng.choice(["add", learn_route(rng, mm)]), S)]
+    for k, s in pre:
+        apply_rule_op(env, k, s)
+    x = passing_input_for(rng, mm.active(), mm.threshold, S, mm.blocked)
+    if x is None:
+        ctx.count("membrane_rule_change_rounds_skipped")
+        return
+    ctx.count("membrane_rule_change_rounds")
+    ctx.count("membrane_rule_change:" + kind)
+    shape_before = (len(mm.static), len(mm.learned), mm.threshold)
+    r0 = step_filter(ctx, env, x, tag="filter-before-rule-change")
+    if r0 is None:
+        return
+    if rng.random() < 0.5:
+        step_filter(ctx, env, x, tag="filter-before-rule-change")
+    if rng.random() < 0.3:
+        step_filter(ctx, env, M.benign_text(rng, 2, 6))
+    for k, s in change:
+        apply_rule_op(env, k, s)
+    must, amb = M.scan(mm.active(), M.Content(x))
+    if r0.allowed and not amb and max((k[2] for k in must), default=0) >= mm.threshold:
+        ctx.count("membrane_reseen_input_must_block_checked")
+        if (len(mm.static), len(mm.learned), mm.threshold) == shape_before:
+            ctx.count("membrane_reseen_input_same_rule_counts")
+    step_filter(ctx, env, x, tag="filter-same-input-after-rule-change")
+    if rng.random() < 0.4:
+        step_filter(ctx, env, M.embed(x, rng), tag="filter-embedded")
+    step_filter(ctx, env, x, tag="filter-same-input-again")
+
+
+def case_mswap(ctx, n, rng):
+    env = build_membrane(rng)
+    ctx.count("histories")
+    for _ in range(rng.choice([1, 2, 2, 3, 4])):
+        mswap_round(ctx, env, rng)
+    if n % 500 == 23:
+        ctx.sample({"kind": "membrane-rule-change-session", "config": env.desc})
 
 
 # ------------------------------------------------------------------ innate immunity
@@ -601,6 +761,99 @@ def case_innate(ctx, n, rng):
         ctx.sample({"kind": "innate-input", "config": env.desc})
 
 
+def innate_edit(env, kind, old, new, rng):
+    """in-place edits of the public `patterns` list (the class offers add_pattern only)"""
+    from operon_ai.surveillance.innate import TLRPattern, PAMPCategory
+    imm = env.imm
+    i, j = last_index(imm.patterns, old, pat_key), last_index(env.active, old, lambda k: k)
+    if kind == "replace-pattern":
+        imm.patterns[i] = TLRPattern(new[0], rng.choice(list(PAMPCategory)), "replaced", is_regex=new[1], severity=new[2])
+        env.active[j] = new
+        env.ops.append([kind, [old, new]])
+    else:
+        del imm.patterns[i]
+        del env.active[j]
+        env.ops.append([kind, old])
+
+
+ISWAPS = ["add-only", "replace-pattern", "replace-pattern", "remove-add-pattern", "remove-add-pattern", "overwrite-severity", "overwrite-matcher"]
+
+
+def iswap_round(ctx, env, rng):
+    """the innate twin of mswap_round: check x while it passes, edit the pattern list, check the identical x again"""
+    thr = env.thr
+    kind = rng.choice(ISWAPS)
+    if kind == "overwrite-severity" and thr == 1:
+        kind = "replace-pattern"
+    base = gen_sigspec(rng, 5)
+    S = (base[0], base[1], rng.randint(thr, 5))
+    D = None
+    if kind in ("replace-pattern", "remove-add-pattern"):
+        if env.active and rng.random() < 0.35:
+            D = rng.choice(env.active)
+        else:
+            D = decoy_spec(rng, 5, S[0])
+            innate_add(env, D, rng)
+    elif kind == "overwrite-severity":
+        D = (S[0], S[1], rng.randint(1, thr - 1))
+        innate_add(env, D, rng)
+    elif kind == "overwrite-matcher":
+        pat = rng.choice(M.CUSTOM_RX + [p for p in M.CUSTOM_SUB if regex_ok(p)])
+        S = (pat, rng.random() < 0.7, S[2])
+        D = (pat, not S[1], rng.randint(1, 5))
+        innate_add(env, D, rng)
+    has_json = any(s[0] == "json" for s, _ in env.vpairs)
+
+    def accept(x):
+        if has_json:
+            x = json.dumps({"msg": x, "n": [1, 2]} if rng.random() < 0.7 else x, ensure_ascii=False)
+        try:
+            return x if all(v.validate(x)[0] for _, v in env.vpairs) else None
+        except BaseException:  # noqa (workload selection; the same call is judged inside step_check)
+            return x
+
+    x = passing_input_for(rng, env.active, thr, S, (), accept)
+    if x is None:
+        ctx.count("innate_rule_change_rounds_skipped")
+        return
+    ctx.count("innate_rule_change_rounds")
+    ctx.count("innate_rule_change:" + kind)
+    shape_before = len(env.active)
+    r0 = step_check(ctx, env, x, tag="check-before-rule-change")
+    if r0 is None:
+        return
+    if rng.random() < 0.5:
+        step_check(ctx, env, x, tag="check-before-rule-change")
+    if kind == "add-only":
+        innate_add(env, S, rng)
+    elif kind == "remove-add-pattern":
+        if rng.random() < 0.3 and D != S:
+            innate_add(env, S, rng)
+            innate_edit(env, "remove-pattern", D, None, rng)
+        else:
+            innate_edit(env, "remove-pattern", D, None, rng)
+            innate_add(env, S, rng)
+    else:
+        innate_edit(env, "replace-pattern", D, S, rng)
+    must, amb = M.scan(env.active, M.Content(x))
+    if r0.allowed and not amb and max((k[2] for k in must), default=0) >= thr:
+        ctx.count("innate_reseen_input_must_block_checked")
+        if len(env.active) == shape_before:
+            ctx.count("innate_reseen_input_same_rule_counts")
+    step_check(ctx, env, x, tag="check-same-input-after-rule-change")
+    if rng.random() < 0.4:
+        step_check(ctx, env, M.embed(x, rng), tag="check-embedded")
+
+
+def case_iswap(ctx, n, rng):
+    env = build_innate(rng)
+    ctx.count("histories")
+    for _ in range(rng.choice([1, 2, 2, 3, 4])):
+        iswap_round(ctx, env, rng)
+    if n % 500 == 24:
+        ctx.sample({"kind": "innate-rule-change-session", "config": env.desc})
+
+
 # ------------------------------------------------------------------ hostile sweep
 def case_sweep(ctx, gate, kind):
     import random
@@ -751,8 +1004,9 @@ def run_case(ctx, n):
     i = n - len(SWEEP)
     if i % (THREAD_EVERY_QUICK if ctx.tier == "quick" else THREAD_EVERY_THOROUGH) == 7:     # both co-prime to the shard counts
         return case_threads(ctx, n, rng)
-    k = i % 20
-    fn = case_minput if k < 8 else case_innate if k < 14 else case_mhist if k < 18 else case_mrelax
+    k = i % 25                            # co-prime to both shard counts: every shard sees every kind
+    fn = (case_minput if k < 8 else case_innate if k < 14 else case_mhist if k < 18 else case_mrelax if k < 20
+          else case_mswap if k < 24 else case_iswap)
     if i % 37 != 5:
         return fn(ctx, n, rng)
     SILENT[0] = False
